@@ -35,8 +35,9 @@ CONSTANTS NA,        \* accounts 1..NA
 
 Acct == 1..NA
 NoAcct == 0
-Chans == {"c0", "c1"}          \* two open channels (channel-0 <-> channel-7, channel-1 <-> channel-8)
-\* "nria": sequencer origin.  "xfer" = transfer/channel-0/utia: origin on the counterparty of c0.
+Chans == {"c0", "c1"}          \* two open channels: c0 = channel-10 <-> channel-70, c1 = channel-1 <-> channel-7 (on both
+                               \* chains one channel id is a textual prefix of the other)
+\* "nria": sequencer origin.  "xfer" = transfer/channel-10/utia: origin on the counterparty of c0.
 Assets == {"nria", "xfer"}
 OriginChan(asset) == IF asset = "xfer" THEN "c0" ELSE "none"
 Cap == 1000000
@@ -105,13 +106,32 @@ Withdraw(a, chan, asset, spell, amt, b, ev) ==
         /\ last' = Step("withdraw", arg, r.out, r.dev)
         /\ alt' = WithdrawR({}, a, chan, asset, spell, amt, b, ev).st
 
-\* environment: the counterparty receives the packet; it now holds vouchers for what we should have escrowed
-Deliver(p) ==
+\* the counterparty receives the packet and holds vouchers for what we should have escrowed; its successful
+\* acknowledgement comes back (acknowledge_packet_check / _execute) and changes nothing here.  `form`: the JSON of the
+\* acknowledgement as ibc-go writes it ("canonical") or with other white space ("spaced").
+Deliver(p, form) ==
   /\ ops < MaxOps /\ ops' = ops + 1
   /\ p \in inflight /\ inflight' = inflight \ {p}
   /\ vouchers' = IF IsSource(p.asset, p.chan) THEN [vouchers EXCEPT ![p.chan][p.asset] = @ + p.amt] ELSE vouchers
   /\ UNCHANGED <<bal, bridge, feeAssets, escrow, wdSeen, deps, seq, gap>>
-  /\ last' = Step("deliver", p, "ok", "none") /\ alt' = Cur
+  /\ last' = Step("deliver", [p |-> p, form |-> form], "ok", "none") /\ alt' = Cur
+
+\* one transaction with two withdrawals of a plain account over the same channel (both are constructed, with all their
+\* checks, before either executes)
+Withdraw2(a, chan, asset, amt1, amt2) ==
+  /\ ops < MaxOps /\ ops' = ops + 1
+  /\ LET ok == amt1 > 0 /\ amt2 > 0 /\ ~bridge[a].is /\ bal[a][asset] >= amt1 + amt2
+         esc == IsSource(asset, chan)
+         arg == [a |-> a, chan |-> chan, asset |-> asset, amt1 |-> amt1, amt2 |-> amt2]
+         mk(id, amt) == [id |-> id, chan |-> chan, asset |-> asset, spell |-> "trace", amt |-> amt, sender |-> a,
+                         escrowed |-> esc, rollup |-> FALSE]
+     IN /\ bal' = IF ok THEN [bal EXCEPT ![a][asset] = @ - (amt1 + amt2)] ELSE bal
+        /\ escrow' = IF ok /\ esc THEN [escrow EXCEPT ![chan][asset] = @ + amt1 + amt2] ELSE escrow
+        /\ inflight' = IF ok THEN inflight \cup {mk(seq, amt1), mk(seq + 1, amt2)} ELSE inflight
+        /\ seq' = IF ok THEN seq + 2 ELSE seq
+        /\ UNCHANGED <<bridge, feeAssets, vouchers, wdSeen, deps, gap>>
+        /\ last' = Step("withdraw2", arg, IF ok THEN "ok" ELSE "fail", "none")
+        /\ alt' = [bal |-> bal', escrow |-> escrow', wdSeen |-> wdSeen, deps |-> deps]
 
 \* refund_tokens_check then refund_tokens (timeout or error acknowledgement of our own packet).  The refund path
 \* resolves the spelling, so it is the same under every D; what differs is whether the packet had been escrowed.
@@ -140,10 +160,12 @@ Refund(p, how) ==
 
 \* receive_tokens, step by step.  `wire` is the asset as the counterparty names it:
 \*   "nria_back": transfer/<their channel>/nria  (coming home: is_transfer_source_zone, pops the prefix, debits escrow)
-\*   "utia"     : a token of theirs; on c0 it becomes transfer/channel-0/utia = "xfer", on c1 an unknown asset
+\*   "utia"     : a token of theirs; on c0 it becomes transfer/channel-10/utia = "xfer", on c1 an unknown asset
+\*   "hop"      : transfer/<their channel>0/nria -- a voucher of a third chain whose first hop only *looks* like their
+\*                channel (channel-70 vs channel-7): a foreign asset, not a returning one
 \* recipient class rc: "plain" | "malformed";  memo: "none" | "valid" | "invalid"
 RecvR(D, chan, wire, amt, to, rc, memo) ==
-  LET asset == IF wire = "nria_back" THEN "nria" ELSE IF chan = "c0" THEN "xfer" ELSE "other"
+  LET asset == IF wire = "nria_back" THEN "nria" ELSE IF wire = "utia" /\ chan = "c0" THEN "xfer" ELSE "other"
       isSrc == wire = "nria_back"
       isB == bridge[to].is
       \* where the handler stops, and whether the deposit had been emitted by then
@@ -214,12 +236,13 @@ FlowNext ==
   \/ \E a \in {1, 2}, chan \in Chans, asset \in Assets, spell \in {"trace", "ibc"}, amt \in {0, 2, 3} :
         Withdraw(a, chan, asset, spell, amt, NoAcct, "e1")
   \/ \E chan \in {"c0"}, spell \in {"trace", "ibc"}, ev \in {"e1", "e2"} : Withdraw(2, chan, "nria", spell, 2, 3, ev)
-  \/ \E p \in inflight : Deliver(p)
+  \/ \E p \in inflight, form \in {"canonical", "spaced"} : Deliver(p, form)
+  \/ \E chan \in Chans, asset \in Assets, amt1 \in {2, 3}, amt2 \in {2, 9} : Withdraw2(1, chan, asset, amt1, amt2)
   \/ \E p \in inflight, how \in {"timeout", "ack_fail"} : Refund(p, how)
   \/ \E chan \in Chans, amt \in {2, 3}, to \in {1, 3}, memo \in {"none", "valid"} :
         Recv(chan, "nria_back", amt, to, "plain", memo, TRUE)
 RecvNext ==
-  \E chan \in Chans, wire \in {"nria_back", "utia"}, amt \in {1, 3}, to \in {1, 3}, rc \in {"plain", "malformed"},
+  \E chan \in Chans, wire \in {"nria_back", "utia", "hop"}, amt \in {1, 3}, to \in {1, 3}, rc \in {"plain", "malformed"},
      memo \in {"none", "valid", "invalid"}, honest \in BOOLEAN :
         Recv(chan, wire, amt, to, rc, memo, honest)
 Next == IF Profile = "flow" THEN FlowNext ELSE RecvNext
